@@ -13,7 +13,9 @@ REQUIRED = ['C20.call_restores', 'C20.call_state_unchanged', 'C20.call_transpare
             'C20.run_restores', 'C20.run_calls_irrelevant', 'C20.run_results_indep',
             'C20.raise_leaks_level_current', 'C20.presetup_keyerror_current',
             'C20.bad_verbose_level_untouched', 'C20.bad_verbose_before_setup_ignored', 'C20.bad_verbose_after_setup_rejected',
-            'C20.bad_verbose_depends_on_setup', 'C20.wrapper_error_only_if_undocumented']
+            'C20.bad_verbose_depends_on_setup', 'C20.wrapper_error_only_if_undocumented',
+            'C20.except_only_restore_leaks_on_interrupt', 'C20.call_restores_after_any_history',
+            'C20.restore_independent_of_earlier_call']
 TRUSTED = [
     'the body of a decorated sift function is abstracted to its outcome (returns | raises): that it never touches '
     'the logger state and that its value does not depend on it is decided by the instance check only '
